@@ -291,7 +291,8 @@ def check_C05(c):
                                               seed=c.rng.randrange(1000), **_mdl(c, ['default', 'amr', 'miniamr'], 0.1))))
     # roles that exercise the sort keys: numeric suffixes (op2 < op10, op02), digits inside the name, bare numbers, inverted roles
     numroles = [':op1', ':op2', ':op10', ':op02', ':op3', ':ARG0', ':ARG1', ':ARG2', ':ARG10', ':a1b', ':a1b2', ':x2y10', ':x2y9', ':1', ':10',
-                ':2', ':op', ':ARG1-of', ':ARG0-of', ':snt2-of', ':snt10-of', ':mod', ':Z', ':a', ':op1-of']
+                ':2', ':op', ':ARG1-of', ':ARG0-of', ':snt2-of', ':snt10-of', ':mod', ':Z', ':a', ':op1-of',
+                ':snt1-op10', ':snt1-op2', ':snt1-op02', ':snt2-op1', ':x2y09', ':a1b10', ':a1b02', ':3d10', ':3d9']
     for i in range(_q(c, 700, 15000)):
         cfg = gen.TreeCfg(wellformed=True, roles=numroles, max_nodes=5, max_width=6, max_depth=3, p_aln=0.0, p_invert=0.0, p_meta=0.0,
                           exotic_symbols=0.0, p_string=0.05)
